@@ -65,7 +65,9 @@ fn main() {
             let prop = props.iter().find(|p| Some(&p.id.to_string()) == args.get(2)).unwrap_or_else(|| usage());
             let idx: u64 = args.get(3).and_then(|s| s.parse().ok()).unwrap_or_else(|| usage());
             let v = prop.variant_for(idx);
-            let seed = chooser::derive_seed(base_seed(), prop.id, idx);
+            let (si, case) = prop.seed_and_case(idx);
+            let seed = chooser::derive_seed(base_seed(), prop.id, si);
+            sim::set_case(case);
             let make = v.make;
             let r = sim::run(seed, sim::Source::Seed, true, sim::Limits { max_steps: v.max_steps, ..Default::default() }, move || make());
             for l in &r.tail {
@@ -82,7 +84,9 @@ fn main() {
             let to: u64 = args.get(4).and_then(|s| s.parse().ok()).unwrap_or(100);
             for idx in from..to {
                 let v = prop.variant_for(idx);
-                let seed = chooser::derive_seed(base_seed(), prop.id, idx);
+                let (si, case) = prop.seed_and_case(idx);
+                let seed = chooser::derive_seed(base_seed(), prop.id, si);
+                sim::set_case(case);
                 let make = v.make;
                 let r = sim::run(seed, sim::Source::Seed, false, sim::Limits { max_steps: v.max_steps, ..Default::default() }, move || make());
                 println!(
